@@ -88,13 +88,23 @@ func oracleC09(w *world.World, s *coop.Sched, final bool) *Finding {
 		}
 	}
 	if final {
-		if f := agreeMemStore(w); f != nil {
+		// a delete of a de-configured IP's object that failed (injected API fault) is logged and not retried by design; such a
+		// leftover is outside this property (the IP is not configured, nothing can hand it out)
+		leftover := map[string]bool{}
+		for _, l := range w.APILog {
+			if strings.HasPrefix(l, "FAULT delete fip ") {
+				if ip := strings.Fields(l)[3]; !inConfig(target, ip) {
+					leftover[ip] = true
+				}
+			}
+		}
+		if f := agreeMemStoreExcept(w, leftover); f != nil {
 			f.Clause = "after-reload-" + f.Clause
 			return f
 		}
 		if w.ReloadDone {
 			for ip := range st {
-				if !inConfig(target, ip) {
+				if !inConfig(target, ip) && !leftover[ip] {
 					return &Finding{Clause: "object-outside-configuration-survives-reload", Detail: ip}
 				}
 			}
